@@ -260,7 +260,7 @@ def opm_spec(draw, jpl=False):
         name=draw(opt(text(14))),
         cospar_id=draw(opt(cospar)),
         cov=draw(opt(cov_spec(state["frame"], FRAMES), 2)),
-        mans=draw(st.lists(man_spec(), min_size=0, max_size=3)) if draw(st.booleans()) else [],
+        mans=[draw(man_spec()) for _ in range(draw(st.sampled_from([0, 0, 0, 1, 1, 2, 3])))],
         user=draw(user_fields()),
         kep=draw(st.booleans()),
     )
@@ -477,7 +477,7 @@ MEASURES = ["Range", "Azimut", "Elevation", "Doppler"]
 @st.composite
 def tdm_spec(draw):
     names = draw(st.lists(text(8), min_size=2, max_size=4, unique=True))
-    npaths = draw(st.sampled_from([1, 1, 2, 3]))
+    npaths = draw(st.sampled_from([1, 1, 1, 2, 2, 3]))
     paths = []
     for _ in range(30):
         if len(paths) == npaths:
@@ -490,7 +490,7 @@ def tdm_spec(draw):
             p = draw(st.sampled_from([[a, b, a], [a, b, c]]))  # two-way / three-way
         if p not in paths and len(set(p)) > 1:
             paths.append(p)
-    nmeas = draw(st.sampled_from([1, 1, 2, 3, 5, 8]))
+    nmeas = draw(st.sampled_from([1, 2, 3, 4, 6, 8, 12]))
     kinds = draw(st.sampled_from([["Range", "Azimut", "Elevation"], ["Range"], ["Azimut", "Elevation"],
                                   MEASURES, ["Elevation"], ["Doppler"], ["Range", "Doppler"]]))
     ms = []
@@ -500,7 +500,7 @@ def tdm_spec(draw):
         for kind in kinds:
             if len(kinds) > 1 and draw(st.sampled_from(range(6))) == 0:
                 continue
-            m = dict(kind=kind, path=draw(st.integers(0, len(paths) - 1)), dt_us=t)
+            m = dict(kind=kind, path=draw(st.sampled_from(range(len(paths)))), dt_us=t)
             if kind == "Range":
                 m["value"] = draw(wint(0, 10**12)) * 1e-3  # m, mm grid, up to 1e6 km
                 if draw(st.sampled_from(range(4))) == 0:
